@@ -74,6 +74,9 @@ pub struct DiscRig {
   participant_status: StatusChannelReceiver<DomainParticipantStatusEvent>,
   pub writer_eid: [u8; 4],
   pub reader_eid: [u8; 4],
+  /// local endpoints that have not been created yet (`new_late`)
+  late_writer: Option<WriterIngredients>,
+  late_reader: Option<ReaderIngredients>,
   _keep: Vec<Box<dyn std::any::Any>>,
 }
 
@@ -101,6 +104,36 @@ pub fn participant_guid(prefix: [u8; 12]) -> GUID {
 
 impl DiscRig {
   pub fn new(local_writer_qos: &QosPolicies, local_reader_qos: &QosPolicies) -> Self {
+    let mut rig = Self::new_late(local_writer_qos, local_reader_qos);
+    rig.create_local_writer();
+    rig.create_local_reader();
+    rig
+  }
+
+  /// the application creates its DataWriter only now: DPEventLoop::add_local_writer
+  pub fn create_local_writer(&mut self) -> bool {
+    match self.late_writer.take() {
+      Some(i) => {
+        self.ev.verif_add_local_writer(i);
+        true
+      }
+      None => false,
+    }
+  }
+
+  /// the application creates its DataReader only now: DPEventLoop::add_local_reader
+  pub fn create_local_reader(&mut self) -> bool {
+    match self.late_reader.take() {
+      Some(i) => {
+        self.ev.verif_add_local_reader(i);
+        true
+      }
+      None => false,
+    }
+  }
+
+  /// like `new`, but the local writer and reader do not exist until `create_local_writer` / `create_local_reader`
+  pub fn new_late(local_writer_qos: &QosPolicies, local_reader_qos: &QosPolicies) -> Self {
     net::capture_begin();
     clock::reset_local();
     let own_prefix = GuidPrefix::new(&[0x0f; 12]);
@@ -125,7 +158,7 @@ impl DiscRig {
       participant_status_sender.clone(),
     )));
 
-    let mut ev = DPEventLoop::new(
+    let ev = DPEventLoop::new(
       DomainInfo {
         domain_participant_guid: own_guid,
         domain_id: 0,
@@ -163,7 +196,7 @@ impl DiscRig {
     let writer_entity = EntityId::new([0, 0, 1], EntityKind::WRITER_WITH_KEY_USER_DEFINED);
     let (wcmd_sender, wcmd_receiver) = mio_channel::sync_channel::<WriterCommand>(16);
     let (wstatus_sender, writer_status) = sync_status_channel::<DataWriterStatus>(4096).unwrap();
-    ev.verif_add_local_writer(WriterIngredients {
+    let late_writer = Some(WriterIngredients {
       guid: GUID::new_with_prefix_and_id(own_prefix, writer_entity),
       writer_command_receiver: wcmd_receiver,
       writer_command_receiver_waker: Arc::new(Mutex::new(None)),
@@ -185,7 +218,7 @@ impl DiscRig {
     let (rstatus_sender, reader_status) = sync_status_channel::<DataReaderStatus>(4096).unwrap();
     let (rcmd_sender, rcmd_receiver) = mio_channel::sync_channel::<ReaderCommand>(0);
     let (poll_event_source, poll_event_sender) = mio_source::make_poll_channel().unwrap();
-    ev.verif_add_local_reader(ReaderIngredients {
+    let late_reader = Some(ReaderIngredients {
       guid: GUID::new_with_prefix_and_id(own_prefix, reader_entity),
       notification_sender,
       status_sender: rstatus_sender,
@@ -209,6 +242,8 @@ impl DiscRig {
       participant_status,
       writer_eid: [0, 0, 1, EntityKind::WRITER_WITH_KEY_USER_DEFINED.into()],
       reader_eid: [0, 0, 2, EntityKind::READER_WITH_KEY_USER_DEFINED.into()],
+      late_writer,
+      late_reader,
       _keep: vec![
         Box::new(wcmd_sender),
         Box::new(rcmd_sender),
